@@ -113,7 +113,7 @@ def legal(steps, d):
                     busy[b] = cyc + wl + 2
                     lastwr = cyc
                 else:
-                    if c["ph"] != d["rdphase"] or cyc <= lastwr + wl + 1:
+                    if c["ph"] != d["rdphase"] or cyc <= lastwr + wl:
                         return False
                 if (c["addr"] >> 10) & 1:
                     openrow[b] = None
@@ -547,7 +547,7 @@ def gen(rng, tier, index):
                     if ap:
                         openrow[b2] = None
             else:
-                if d["rdphase"] not in [c["ph"] for c in cmds] and cyc > last_wr_cycle + wl + 1:
+                if d["rdphase"] not in [c["ph"] for c in cmds] and cyc > last_wr_cycle + wl:
                     cmds.append({"k": "RD", "ph": d["rdphase"], "bank": b2, "addr": col | ((1 << 10) if ap else 0)})
                     if ap:
                         openrow[b2] = None
